@@ -56,6 +56,19 @@ def run(ctx):
             reqs.append(("add_constraints", [s, t, rna]))
             rand_cases.append({"kind": "add", "a": s, "b": t, "material": "RNA" if rna else "DNA"})
         diffs = correspond(ctx, "iupac", reqs)
+        # the legacy SequenceConstraint shares nothing with these functions: the same requests after calls into the legacy class
+        # (both materials, any order) and into the functions with the other material, in the same process
+        areqs, aimpl = [], []
+        lfn = ["legacy_wc_complement", "legacy_complement", "legacy_reverse_wc_complement", "legacy_reverse_complement"]
+        for rq in rng.sample(reqs, min(len(reqs), 400 if quick else 4000)):
+            earlier = [["@op", rng.choice(lfn), ["".join(rng.choice("ACGUN" if r_ else "ACGTN") for _ in range(rng.randrange(1, 6))), r_]]
+                       for r_ in rng.sample([True, False, True, False], rng.randrange(1, 4))]
+            if rq[0] != "add_constraints":
+                earlier.append(["@op", rng.choice(fns), [rq[1][0].replace("T", "A").replace("U", "A"), not rq[1][1]]])
+            rng.shuffle(earlier)
+            areqs.append(rq)
+            aimpl.append(("after", [rq[0], earlier, rq[1]]))
+        diffs += correspond(ctx, "iupac-after-other-calls", areqs, impl_reqs=aimpl)
     ctx.cov["rule"] = ("all single letters (15 codes + foreign letters) x 2 materials x 4 functions, all code pairs for "
                        "add_constraints, random sequences up to length 200 with 10% single foreign letters; "
                        "non-trivial = distinct agreed results")
@@ -74,7 +87,8 @@ def run(ctx):
             found.append({"key": {"fn": f["fn"], "seq": f["seq"], "material": f["material"]}, "input": f,
                           "what": f"{f['fn']}({f['seq']!r}, material={f['material']!r}) = {f['observed']}, set semantics give {f['expected']}",
                           "snippet": f"from dsdobjects.iupac_utils import *; print({f['fn']}(*{[f['seq']] if isinstance(f['seq'], str) else f['seq']!r}, material={f['material']!r}))"})
-        return found
+        from corr import after_witnesses
+        return after_witnesses(diffs) + found
 
     conclude(ctx, res, runner, diffs, search)
 
@@ -84,6 +98,12 @@ def replay(data):
     if not f:
         print("replay names a broken link only:", json.dumps(data.get("broken_links"))[:2000])
         return 1
+    if isinstance(f, dict) and "after" in f:
+        from common import run_impl
+        name, earlier, args = f["after"]
+        a, b = run_impl([(name, args)], jobs=1)[0], run_impl([("after", f["after"])], jobs=1)[0]
+        print("first call:", a, "| after earlier calls:", b)
+        return 1 if a != b else 0
     case = ({"kind": "seq", "seq": f["seq"], "material": f["material"]} if f["fn"] != "add_constraints"
             else {"kind": "add", "a": f["seq"][0], "b": f["seq"][1], "material": f["material"]})
     out = run_oracle("c17.py", {"cases": [case]})
